@@ -81,7 +81,10 @@ INITIAL = ["clean", "target_waiting", "other_waiting"]
 
 
 def scope(tier):
-    return dict(maps=len(MAPS), n_tries=[0, 1, 2], initial=INITIAL,
+    return dict(maps=len(MAPS),
+                n_tries=[0, 1, 2] if tier == "quick" else [0, 1, 2, 3],
+                wait=[False] if tier == "quick" else [False, True],
+                initial=INITIAL,
                 use_count=[True, False], buffers=[16, 256],
                 miss="all subsets of the map's chips on every fill")
 
@@ -89,11 +92,14 @@ def scope(tier):
 def shards(tier):
     out = [dict(part="A", map=i) for i in range(len(MAPS))]
     for i in range(len(MAPS)):
-        for nt in (0, 1, 2):
+        for nt in ((0, 1, 2) if tier == "quick" else (0, 1, 2, 3)):
             for uc in (True, False):
                 for init in INITIAL:
-                    out.append(dict(part="B", map=i, n_tries=nt, use_count=uc,
-                                    initial=init))
+                    for wait in ((False,) if tier == "quick"
+                                 else (False, True)):
+                        out.append(dict(part="B", map=i, n_tries=nt,
+                                        use_count=uc, initial=init,
+                                        wait=wait))
     out.append(dict(part="big"))
     out.append(dict(part="hist"))
     return out
@@ -318,10 +324,14 @@ def part_A(params, tier, acc):
 
 
 def part_B(params, tier, acc):
-    cfg = dict(map=params["map"], buffer=16, size=20, wait=False,
-               use_count=params["use_count"], n_tries=params["n_tries"],
-               initial=params["initial"])
-    n = explore(lambda ch: run_one(cfg, ch, acc), bound=None, budget=100)
+    n = 0
+    for size in ((20,) if tier == "quick" else (20, 36)):
+        cfg = dict(map=params["map"], buffer=16, size=size,
+                   wait=params.get("wait", False),
+                   use_count=params["use_count"], n_tries=params["n_tries"],
+                   initial=params["initial"])
+        n += explore(lambda ch: run_one(cfg, ch, acc), bound=None,
+                     budget=100)
     acc.sample(dict(part="B", config=cfg, executions=n))
 
 
